@@ -87,12 +87,25 @@ class PrinterExtractor:
             raise AnalysisError(f"printer: unsupported {what} `{U(node)[:70]}` in {cname}.{fn.name} "
                                 f"(line {getattr(node, 'lineno', '?')})")
 
+        def modconst(e):
+            """a module-level string constant named by e, else None"""
+            if isinstance(e, ast.Constant) and isinstance(e.value, str):
+                return e.value
+            if isinstance(e, ast.Name) and e.id not in env:
+                vals = ex.mod.assigns.get(e.id, [])
+                if len(vals) == 1 and isinstance(vals[0], ast.Constant) and isinstance(vals[0].value, str):
+                    return vals[0].value
+            return None
+
         def sval(e):
             if isinstance(e, ast.Constant) and isinstance(e.value, str):
                 return lit(e.value)
             if isinstance(e, ast.Name):
                 if e.id in env:
                     return env[e.id]
+                cv = modconst(e)
+                if cv is not None:
+                    return lit(cv)
                 unsupported("name", e)
             if isinstance(e, ast.Attribute) and isinstance(e.value, ast.Name) and e.value.id == "self":
                 return (("field", e.attr),)
@@ -142,7 +155,8 @@ class PrinterExtractor:
                 if isinstance(f, ast.Attribute):
                     if f.attr == "encode" and not e.args:
                         return (("enc", U(f.value)),)
-                    if f.attr == "join" and isinstance(f.value, ast.Constant) and len(e.args) == 1:
+                    if f.attr == "join" and modconst(f.value) is not None and len(e.args) == 1:
+                        sep = modconst(f.value)
                         g = e.args[0]
                         if isinstance(g, (ast.GeneratorExp, ast.ListComp)) and len(g.generators) == 1 \
                                 and isinstance(g.generators[0].target, ast.Name) and not g.generators[0].ifs:
@@ -151,9 +165,9 @@ class PrinterExtractor:
                             if not ask(("nonempty", fld)):
                                 return ()
                             if U(g.elt) == f"{var}.encode()":
-                                return (("join", f.value.value, fld),)
+                                return (("join", sep, fld),)
                             body = elem_term(g.elt, var)
-                            return (("joinx", f.value.value, body, fld),)
+                            return (("joinx", sep, body, fld),)
                     if isinstance(f.value, ast.Name) and f.value.id == "self" and not e.args:
                         alts = ex.productions(cname, f.attr)
                         for a_, _ in alts:
